@@ -201,6 +201,34 @@ def judge_entry_points(ck, cs, r, inp):
                    input=inp, expected="the same bytes as NeuroMLWriter.write(doc, <path>)", observed=what)
 
 
+def judge_prefixed(ck, cs, r, inp):
+    """build mode loaded-from-prefixed-text: the tree obtained by loading the document's own XML rewritten with namespace
+    prefixes conforms like the original: validate accepts it, the writer's output for it is well-formed and valid"""
+    for v in r.get("prefixed", []):
+        ck.tally("loaded-from-prefixed-text:" + v["variant"].split(" ")[0])
+        if v.get("input_lx", {}).get("valid") is not True:
+            ck.tally("loaded-from-prefixed-text:skipped:rewritten-text-not-valid")
+            continue
+        ck.count(1, nontrivial_key=("prefixed", v["variant"], json.dumps(r["obj"], sort_keys=True)))
+        winp = dict(inp, build="loaded-from-prefixed-text", variant=v["variant"])
+        if "err" in v:
+            ck.witness("C02:loaded-from-prefixed-text:raises", "a conforming document, its XML rewritten with %s (libxml2: valid) and loaded "
+                       "with %s: %s" % (v["variant"], v.get("loader"), v["err"]), input=winp, observed=v["err"])
+            continue
+        if not v["same_tree"]:
+            ck.tally("loaded-from-prefixed-text:loads-to-another-tree (C01's subject)")
+        if v["rec"]["raised"] is not None:
+            ck.witness("C02:loaded-from-prefixed-text:validate-rejects", "validate(recursive=True) raises %s on the tree loaded (%s) from the "
+                       "valid XML of a conforming document rewritten with %s: %s" % (v["rec"]["raised"], v["loader"], v["variant"],
+                                                                                   (v["rec"].get("text") or "")[:300]), input=winp)
+        if not v["lx"]["valid"]:
+            ck.witness("C02:loaded-from-prefixed-text:written-xml-not-%s" % ("wellformed" if not v["lx"]["wellformed"] else "valid"),
+                       "the tree loaded (%s) from the valid XML of a conforming document rewritten with %s passes validate(recursive=True) "
+                       "(%s) but NeuroMLWriter writes XML that is not %s: %s" % (
+                           v["loader"], v["variant"], v["rec"]["raised"] or "accepted", "well-formed" if not v["lx"]["wellformed"] else "schema-valid",
+                           v["lx"]["err"]), input=winp, expected="well-formed, schema-valid XML", observed=(v.get("written") or "")[:600])
+
+
 # ----------------------------------------------------------------------------- the public factory paths
 FACTORY_MODES = ("utils-factory-str", "utils-factory-class", "class-factory", "parent-add", "shared-objects")
 
@@ -638,7 +666,7 @@ def run(ck):
             cs["mut"] = {"kind": rng.choice(MUTS), "seed": rng.randrange(1 << 30)}
     res = []
     for i in range(0, len(cases), 800):
-        res += ck.impl("c02_impl.py", {"order": order, "cases": cases[i:i + 800], "want": ["rec", "text", "xml", "file"]},
+        res += ck.impl("c02_impl.py", {"order": order, "cases": cases[i:i + 800], "want": ["rec", "text", "xml", "file", "prefixed"]},
                        timeout=2400)["results"]
     xcases, ccases = [], []
     for cs, r in zip(cases, res):
@@ -672,6 +700,7 @@ def run(ck):
                        expected="schema-valid", observed=r["lx"]["err"])
         if cs["doc"]:
             judge_entry_points(ck, cs, r, inp)
+            judge_prefixed(ck, cs, r, inp)
         has_inc = any(k == "includes" and v and v.get("l") for k, v in cs["tree"]["kw"])   # is_valid_neuroml2 reads included files
         if cs["doc"] and not has_inc and r.get("file_valid") is not True and r["lx"]["valid"]:
             ck.witness("C02:document:is_valid_neuroml2-%s" % r.get("file_valid"),
@@ -733,6 +762,13 @@ def replay(ck, data):
         bad = any(s["step"].startswith("restored") and (s["validate(recursive=True)"] or s["validate()"] or s["component.validate()"])
                   for s in steps)
         return 1 if bad else 0
+    if inp.get("build") == "loaded-from-prefixed-text":
+        r = ck.impl("c02_impl.py", {"order": order, "cases": [dict(inp, build="ctor")], "want": ["rec", "text", "file", "prefixed"]})["results"][0]
+        rows = [{k: v.get(k) for k in ("variant", "loader", "err", "same_tree", "rec", "lx", "written")} for v in r.get("prefixed", [])]
+        for x in rows:
+            x["rec"] = (x["rec"] or {}).get("raised")
+        print(json.dumps({"stored": {k: data.get(k) for k in ("key", "what")}, "now": rows}, indent=1)[:6000])
+        return 1 if any(x.get("err") or x["rec"] or not (x.get("lx") or {}).get("valid") for x in rows) else 0
     if inp.get("build"):
         ref, r = ck.impl("c02_impl.py", {"order": order, "cases": [dict(inp, build="ctor"), inp], "want": ["rec", "text"]})["results"]
         same = "obj" in r and r["obj"] == ref.get("obj") and r.get("text") == ref.get("text") and r.get("rec", {}).get("raised") is None
